@@ -22,8 +22,10 @@
 (***************************************************************************)
 EXTENDS Naturals, Sequences, FiniteSets, TLC, Json
 
-Locations == {"none", "manifest", "main", "import1", "import2", "version", "version_import", "evolution",
-              "duplicate_label", "bad_override"}
+\* manifest: unknown key; outdir_missing: the last enabled target's output directory is empty; import_manifest: a target
+\* section without output directory in the manifest of an imported package
+Locations == {"none", "manifest", "outdir_missing", "import_manifest", "main", "import1", "import2", "version", "version_import",
+              "evolution", "duplicate_label", "bad_override"}
 ErrKinds  == {"semantic", "syntax"}                 \* an ill-typed model vs. a file that does not parse (only for model files)
 Targets   == {"cpp", "python", "json", "matlab"}
 TargetOrder == <<"cpp", "python", "json", "matlab">>
@@ -41,7 +43,8 @@ VersionClosure == {"version", "version_import"}
 \* uses: whether importing packages actually reference types of the packages they import (an unused import that is broken
 \* must be reported all the same)
 Configs == { c \in [loc : Locations, kind : ErrKinds, targets : (SUBSET Targets) \ {{}}, out : OutStates, cmd : Commands, uses : BOOLEAN] :
-               /\ (c.loc \in {"none", "manifest", "evolution", "duplicate_label", "bad_override"} => c.kind = "semantic")
+               /\ (c.loc \in {"none", "manifest", "outdir_missing", "import_manifest", "evolution", "duplicate_label", "bad_override"}
+                     => c.kind = "semantic")
                /\ (c.cmd = "validate" => c.out = "absent" /\ c.targets = {"json"})
                /\ (~c.uses => c.loc \in {"none", "import1", "import2", "version_import"} /\ c.out = "absent") }
 
@@ -53,7 +56,7 @@ ErrAt(l) == cfg.loc = l
 Fail(l) == errors' = errors \cup {l}
 
 Load == /\ phase = "start" /\ exit = "running"
-        /\ IF ErrAt("manifest") THEN Fail("manifest") /\ phase' = "failed"
+        /\ IF ErrAt("manifest") \/ ErrAt("outdir_missing") \/ ErrAt("import_manifest") THEN Fail(cfg.loc) /\ phase' = "failed"
            ELSE phase' = "loaded" /\ UNCHANGED errors
         /\ UNCHANGED <<cfg, parsed, validatedVersions, evolved, written, generated, exit>>
 
